@@ -9,6 +9,7 @@ import (
 	"os/exec"
 	"path/filepath"
 	"regexp"
+	"runtime"
 	"sort"
 	"strings"
 	"time"
@@ -105,6 +106,18 @@ func cmdCheck(args []string) int {
 		*timeout = 20
 		if *tier == "thorough" {
 			*timeout = 60
+		}
+	}
+	// a machine that is busy with other work (load average above 3/4 of the cores) gets proportionally longer solver
+	// budgets, up to 3x: a timeout is "undecided", and undecided is reported, so timeouts must not depend on the neighbours
+	if b, err := os.ReadFile("/proc/loadavg"); err == nil {
+		var l1 float64
+		fmt.Sscanf(string(b), "%f", &l1)
+		if f := l1 / (0.75 * float64(runtime.NumCPU())); f > 1 {
+			if f > 3 {
+				f = 3
+			}
+			*timeout = int(float64(*timeout)*f + 0.5)
 		}
 	}
 	specs, err := LoadSpecs(*repo)
